@@ -97,6 +97,7 @@ type SimDB struct {
 	faults   []Fault
 	fired    []Fired
 	disarmed bool
+	paused   bool // calls are neither counted nor failed (see Quiet)
 
 	openIters     int
 	writeUnderItr int
@@ -136,6 +137,22 @@ func (d *SimDB) Arm(f []Fault) {
 	defer d.mu.Unlock()
 	d.faults = append([]Fault(nil), f...)
 	d.disarmed = false
+}
+
+// Quiet runs f with the storage calls it makes neither counted nor failed:
+// for calls of the harness itself (and of API functions without an error
+// result) in the middle of a probe that is under fault injection.
+func (d *SimDB) Quiet(f func()) {
+	d.mu.Lock()
+	was := d.paused
+	d.paused = true
+	d.mu.Unlock()
+	defer func() {
+		d.mu.Lock()
+		d.paused = was
+		d.mu.Unlock()
+	}()
+	f()
 }
 
 // Disarm stops fault injection ("faults stop").
@@ -230,6 +247,10 @@ func (d *SimDB) enter(kind string, key []byte) error {
 		h(kind)
 	}
 	d.mu.Lock()
+	if d.paused {
+		d.mu.Unlock()
+		return nil
+	}
 	d.counts[kind]++
 	d.total[kind]++
 	if (kind == KGet || kind == KHas) && len(key) > 0 {
